@@ -47,13 +47,6 @@ structure HS where
   margin : Rat := BIG
   exact : Bool := true
   fuelOut : Bool := false
-  /-- model-side dynamic check (see `mergeLeftLoop` / `mergeRightLoop`): a heap handed back a constraint
-      whose right (left) end is not in the block the heap belongs to.  The heap discipline of the code
-      excludes it; here it is checked, not proved.  Never observed; a run that sets it is reported by the
-      driver like a run that exhausts fuel.  (That the constraint is not internal, and that `findMinLM`
-      returns a constraint of its own block, ARE proved: Lemmas/VpscStatic `findMinIn_ext`,
-      `findMinOut_ext`, `findMinLM_blk`.) -/
-  corrupt : Bool := false
   nInternal : Nat := 0       -- internal constraints dropped at a heap root
   nStale : Nat := 0          -- out-of-date constraints popped and re-inserted
   nMergeL : Nat := 0         -- mergeLeft merges, r survives
@@ -119,7 +112,6 @@ def HS.noteCmp (hs : HS) (x : Rat) : HS :=
   if x = 0 && hs.exact then hs else hs.note x
 
 def HS.out (hs : HS) : HS := { hs with fuelOut := true }
-def HS.bad (hs : HS) : HS := { hs with corrupt := true }
 
 /-- smallest distance between two finite keys among `cs` (0 only if `exact = false`) -/
 def HS.noteKeys (st : St) (hs : HS) (cs : List Nat) : HS :=
@@ -298,11 +290,8 @@ def mergeLeftLoop : Nat → SSt → Nat → SSt
       let sl := rawSlack s.st c
       let hs := q.1.noteCmp sl
       if sl < 0 then
-        -- what the heap discipline of the code guarantees (checked here, not proved): `c` enters block `r`
-        if blkOf s.st (s.st.cons[c]!).r != r then { s with hs := hs.bad }
-        else
-          let p := mergeLeftStep { s with hs := hs } r c
-          mergeLeftLoop fuel p.1 p.2
+        let p := mergeLeftStep { s with hs := hs } r c
+        mergeLeftLoop fuel p.1 p.2
       else { s with hs := hs }
 
 def loopFuel (st : St) : Nat := st.cons.size + st.vars.size + 2
@@ -350,10 +339,8 @@ def mergeRightLoop : Nat → SSt → Nat → SSt
       let sl := rawSlack s.st c
       let hs := q.1.noteCmp sl
       if sl < 0 then
-        if blkOf s.st (s.st.cons[c]!).l != l then { s with hs := hs.bad }
-        else
-          let p := mergeRightStep { s with hs := hs } l c
-          mergeRightLoop fuel p.1 p.2
+        let p := mergeRightStep { s with hs := hs } l c
+        mergeRightLoop fuel p.1 p.2
       else { s with hs := hs }
 
 /-- `Blocks::mergeRight(l)` -/
@@ -407,7 +394,7 @@ def noteScan (st : St) (hs : HS) : HS :=
 
 def SSt.cleanup (s : SSt) : SSt := { s with st := s.st.cleanup }
 
-def SSt.bad (s : SSt) : Bool := s.hs.fuelOut || s.hs.corrupt || s.st.fuelOut
+def SSt.bad (s : SSt) : Bool := s.hs.fuelOut || s.st.fuelOut
 
 /-- everything of `Solver::satisfy()` before the exit scan -/
 def satisfyCore (s : SSt) : SSt :=
